@@ -72,6 +72,7 @@ class ServerDriver:
                     return r
             self.sio.packet_class = type('RecPacket', (base,), {'json': RecJson})
         self.sockets = {}
+        self.nested = None
         self._install_handlers()
 
     # ---- scripted handlers ----
@@ -165,10 +166,32 @@ class ServerDriver:
             self.sio.register_namespace(cls(ns))
 
     def callback(self, cb):
+        """Ack callback.  When the driver has armed `self.nested` (eio, payload), the callback
+        re-delivers that message from inside itself, once: this is how a duplicate ACK that is
+        processed while the first invocation is still running is produced deterministically."""
         drv = self
 
-        def f(*args):
-            drv.trace.append(('CbCall', cb, tuple(args)))
+        def redeliver():
+            if drv.nested is None:
+                return None
+            eio, payload = drv.nested
+            drv.nested = None
+            drv.trace.append(('NestedStart',))
+            s = drv.sockets.get(eio)
+            if s is not None and not s.closed:
+                return s.receive(drv.eio_packet.Packet(drv.eio_packet.MESSAGE, payload))
+            return None
+
+        if self.mode == 'async':
+            async def f(*args):
+                drv.trace.append(('CbCall', cb, tuple(args)))
+                r = redeliver()
+                if inspect.isawaitable(r):
+                    await r
+        else:
+            def f(*args):
+                drv.trace.append(('CbCall', cb, tuple(args)))
+                redeliver()
         return f
 
     # ---- engine.io level ----
@@ -208,6 +231,16 @@ class ServerDriver:
                 s = self.sockets.get(o[1])
                 if s is not None and not s.closed:
                     await aw(s.receive(self.eio_packet.Packet(self.eio_packet.MESSAGE, o[2])))
+            elif k == 'msg_nested':
+                # the message is delivered, and delivered AGAIN from inside the ack callback it triggers
+                s = self.sockets.get(o[1])
+                if s is not None and not s.closed:
+                    self.nested = (o[1], o[2])
+                    await aw(s.receive(self.eio_packet.Packet(self.eio_packet.MESSAGE, o[2])))
+                    if self.nested is not None:     # no callback ran: deliver the duplicate afterwards
+                        self.nested = None
+                        self.trace.append(('NestedStart',))
+                        await aw(s.receive(self.eio_packet.Packet(self.eio_packet.MESSAGE, o[2])))
             elif k == 'close':
                 s = self.sockets.get(o[1])
                 if s is not None and not s.closed:
@@ -215,7 +248,7 @@ class ServerDriver:
                     sio.eio.sockets.pop(o[1], None)
         except BaseException as e:      # nothing may escape engine.io's containment
             self.trace.append(('Escaped', coqio.exn_name(e)))
-        if k in ('eio_connect', 'msg', 'close'):
+        if k in ('eio_connect', 'msg', 'close', 'msg_nested'):
             return self.trace, self.loads_table
         try:
             if k == 'emit':
@@ -283,7 +316,16 @@ def run_history(cfg, ops, mode='sync', coro=False):
         d = ServerDriver(cfg, mode, coro)
         out = []
         for o in ops:
-            out.append(await d.op(o))
+            effs, tbl = await d.op(o)
+            if o[0] == 'msg_nested':
+                # In the model the nested delivery is the same message delivered right after: the
+                # callback invocation is the last thing _handle_ack does (tail position), so the
+                # nested run sees exactly the state the sequential run sees.
+                cut = effs.index(('NestedStart',)) if ('NestedStart',) in effs else len(effs)
+                out.append((effs[:cut], tbl))
+                out.append(([e for e in effs[cut + 1:]], tbl))
+            else:
+                out.append((effs, tbl))
         return out, d.dump()
     return asyncio.run(main())
 
